@@ -13,6 +13,7 @@ import NutsModel.C19.Murmur
 import NutsProofs.Lemmas.C19
 import NutsProofs.Lemmas.C19DidWeb
 import NutsProofs.Lemmas.C19HttpCache
+import NutsProofs.Lemmas.C19CredMore
 
 namespace Nuts.C19.Props
 open Nuts Nuts.C19 Nuts.C19.Lemmas
@@ -25,7 +26,7 @@ set_option maxRecDepth 8192 in
     function are exactly the expected ones, and every expected panic site is a `Res.panic` site of a model -/
 theorem panic_sites_accounted :
     Facts.C19.partialOps = Sites.expectedOps ∧
-    (∀ s ∈ Sites.expectedSites, s ∈ (Dpop.sites ++ Resolver.sites ++ Bitstring.sites ++ Iblt.sites ++ Callback.sites ++ StatusList.sites ++ DidKey.sites ++ DidWeb.sites ++ Cred.sites ++ Jwx.sites).map (·.2)) := by
+    (∀ s ∈ Sites.expectedSites, s ∈ (Dpop.sites ++ Resolver.sites ++ Bitstring.sites ++ Iblt.sites ++ Callback.sites ++ StatusList.sites ++ DidKey.sites ++ DidWeb.sites ++ Cred.sites ++ CredMore.sites ++ Jwx.sites).map (·.2)) := by
   constructor <;> decide
 
 /-- the source today is the repaired source: checked assertions in dpop.go and key.go, nil guards on verification
@@ -852,6 +853,265 @@ theorem cred_guards_needed :
 example : Cred.presenterIsCredentialSubject Cred.Cfg.fixed ⟨.jwt, some "did:x:a#k", false, 0, some "did:x:a", [some "did:x:a", some "did:x:a"]⟩ = .ok (some "did:x:a") := by decide
 example : Cred.presenterIsCredentialSubject Cred.Cfg.fixed ⟨.jwt, some "did:x:a#k", false, 0, some "did:x:a", [some "did:x:a", some "did:x:b"]⟩ = .err "not-same-subject" := by decide
 example : Cred.presenterIsCredentialSubject Cred.Cfg.fixed ⟨.ldp, none, true, 1, some "did:x:b", [some "did:x:a"]⟩ = .ok none := by decide
+
+
+/-! ### the remaining vcr/credential/util.go helpers: PresentationIssuanceDate / ExpirationDate, AutoCorrectSelfAttestedCredential, FilterOnDIDMethod -/
+
+theorem fact_credmore : Sites.credMoreCfg = CredMore.Cfg.fixed ∧ Sites.credCfg = Cred.Cfg.fixed := by decide
+
+/-- No presentation (any format, any number of proofs incl. none, proof without `expires`, JWT without nbf/iat/exp) makes
+    PresentationIssuanceDate or PresentationExpirationDate panic. -/
+theorem cred_dates_total (vp : Cred.VP) (d : CredMore.Dates) :
+    ∀ s, CredMore.issuanceDate Sites.credCfg vp d ≠ .panic s ∧ CredMore.expirationDate Sites.credMoreCfg Sites.credCfg vp d ≠ .panic s := by
+  intro s
+  rw [fact_credmore.1, fact_credmore.2]
+  constructor
+  · unfold CredMore.issuanceDate
+    split
+    · split <;> (intro h; cases h)
+    · split
+      · intro h; cases h
+      · rename_i s' hs; exact absurd hs (parseLDProof_fixed_no_panic vp s')
+      · intro h; cases h
+    · intro h; cases h
+  · unfold CredMore.expirationDate
+    split
+    · intro h; cases h
+    · split
+      · intro h; cases h
+      · rename_i s' hs; exact absurd hs (parseLDProof_fixed_no_panic vp s')
+      · split
+        · simp only [CredMore.Cfg.fixed, if_true]; intro h; cases h
+        · intro h; cases h
+    · intro h; cases h
+
+/-- where a non-nil date comes from: a JWT's nbf, else its iat; a JSON-LD presentation's date only when it has EXACTLY one proof
+    (which go-did could unmarshal), and then that proof's `created` / `expires`; never a zero time, never another format -/
+theorem cred_dates_source (c : CredMore.Cfg) (cc : Cred.Cfg) (vp : Cred.VP) (d : CredMore.Dates) (t : String) :
+    (CredMore.issuanceDate cc vp d = .ok (some t) →
+      (vp.format = .jwt ∧ (d.nbf = some t ∨ (d.nbf = none ∧ d.iat = some t))) ∨
+      (vp.format = .ldp ∧ Cred.parseLDProof cc vp = .ok () ∧ d.created = some t)) ∧
+    (CredMore.expirationDate c cc vp d = .ok (some t) →
+      (vp.format = .jwt ∧ d.exp = some t) ∨
+      (vp.format = .ldp ∧ Cred.parseLDProof cc vp = .ok () ∧ d.expires = some (some t))) := by
+  constructor
+  · intro h
+    unfold CredMore.issuanceDate at h
+    split at h
+    · rename_i hf
+      split at h
+      · rename_i t' hn
+        have ht : t' = t := by injection h with h; injection h
+        subst ht; exact .inl ⟨hf, .inl hn⟩
+      · rename_i hn
+        have hi : d.iat = some t := by injection h
+        exact .inl ⟨hf, .inr ⟨hn, hi⟩⟩
+    · rename_i hf
+      split at h
+      · cases h
+      · cases h
+      · rename_i u hp
+        have hc : d.created = some t := by injection h
+        cases u; exact .inr ⟨hf, hp, hc⟩
+    · cases h
+  · intro h
+    unfold CredMore.expirationDate at h
+    split at h
+    · rename_i hf
+      have he : d.exp = some t := by injection h
+      exact .inl ⟨hf, he⟩
+    · rename_i hf
+      split at h
+      · cases h
+      · cases h
+      · rename_i u hp
+        cases u
+        split at h
+        · split at h <;> cases h
+        · rename_i t' he
+          have ht : t' = some t := by injection h
+          subst ht; exact .inr ⟨hf, hp, he⟩
+    · cases h
+
+/-- No credential makes AutoCorrectSelfAttestedCredential panic: any number of proofs, any member missing, any credentialSubject
+    (absent, scalar = nil map after the discarded unmarshal error, several) — under encoding/json's contract that a slice
+    re-read from its own JSON has the length of the original (`len(credentialSubject) == 1 → len(credential.CredentialSubject) ≥ 1`). -/
+theorem cred_autocorrect_total (i : CredMore.ACIn) (hlen : i.subj.length = 1 → 0 < i.nCS) :
+    ∀ s, CredMore.autoCorrect Sites.credMoreCfg i ≠ .panic s := by
+  intro s
+  rw [fact_credmore.1]
+  unfold CredMore.autoCorrect
+  split
+  · intro h; cases h
+  · simp only [CredMore.Cfg.fixed, if_true]
+    split
+    · rename_i s0 hs
+      have hn : 0 < i.nCS := hlen (by rw [hs]; rfl)
+      unfold CredMore.acSubject
+      simp only [if_true]
+      cases s0 with
+      | none =>
+        simp only
+        have : (i.nCS == 0) = false := by simp; omega
+        rw [this]; intro h; cases h
+      | some b =>
+        cases b
+        · simp only
+          have : (i.nCS == 0) = false := by simp; omega
+          rw [this]; intro h; cases h
+        · simp only; intro h; cases h
+    · intro h; cases h
+
+/-- what AutoCorrectSelfAttestedCredential may change: nothing on a credential that carries a proof; otherwise only members that
+    are MISSING (id, issuer, issuanceDate), and the subject id only when there is exactly one subject and it has no id —
+    it never overwrites a value the client supplied -/
+theorem cred_autocorrect_only_fills_missing (c : CredMore.Cfg) (i : CredMore.ACIn) (o : CredMore.ACOut)
+    (h : CredMore.autoCorrect c i = .ok o) :
+    (0 < i.nProof → o = CredMore.ACOut.untouched) ∧
+    (o.setId = true → i.idNil = true) ∧ (o.setIssuer = true → i.issuerEmpty = true) ∧ (o.setDate = true → i.issuanceZero = true) ∧
+    (o.setSubjectId = true → i.nProof = 0 ∧ ∃ s rest, i.subj = s :: rest ∧ s ≠ some true ∧ (c.subjLenExact = true → rest = [])) := by
+  have hsub : ∀ (o0 : CredMore.ACOut) (s : Option Bool), o0.setSubjectId = false → CredMore.acSubject c i o0 s = .ok o →
+      o.setId = o0.setId ∧ o.setIssuer = o0.setIssuer ∧ o.setDate = o0.setDate ∧ (o.setSubjectId = true → s ≠ some true) := by
+    intro o0 s h0 hs
+    unfold CredMore.acSubject at hs
+    cases s with
+    | none =>
+      cases hg : c.nilMapGuard with
+      | false => rw [hg] at hs; simp at hs
+      | true =>
+        rw [hg] at hs; simp only [if_true] at hs
+        split at hs
+        · cases hs
+        · cases hs; exact ⟨rfl, rfl, rfl, fun _ h => by cases h⟩
+    | some b =>
+      cases b
+      · simp only at hs
+        split at hs
+        · cases hs
+        · cases hs; exact ⟨rfl, rfl, rfl, fun _ h => by cases h⟩
+      · simp only at hs; cases hs; exact ⟨rfl, rfl, rfl, fun h => by rw [h0] at h; cases h⟩
+  unfold CredMore.autoCorrect at h
+  split at h
+  · rename_i hp
+    cases h
+    refine ⟨fun _ => rfl, ?_, ?_, ?_, ?_⟩ <;> (intro h; cases h)
+  · rename_i hp
+    have hp0 : i.nProof = 0 := by omega
+    simp only at h
+    split at h
+    · rename_i hx
+      split at h
+      · rename_i s hs
+        have := hsub _ s rfl h
+        refine ⟨fun h => by omega, ?_, ?_, ?_, ?_⟩
+        · intro h1; rw [this.1] at h1; exact h1
+        · intro h1; rw [this.2.1] at h1; exact h1
+        · intro h1; rw [this.2.2.1] at h1; exact h1
+        · intro h1; exact ⟨hp0, s, [], hs, this.2.2.2 h1, fun _ => rfl⟩
+      · cases h
+        refine ⟨fun h => by omega, fun h => h, fun h => h, fun h => h, fun h => by cases h⟩
+    · rename_i hx
+      split at h
+      · cases h
+      · rename_i s rest hs
+        have := hsub _ s rfl h
+        refine ⟨fun h => by omega, ?_, ?_, ?_, ?_⟩
+        · intro h1; rw [this.1] at h1; exact h1
+        · intro h1; rw [this.2.1] at h1; exact h1
+        · intro h1; rw [this.2.2.1] at h1; exact h1
+        · intro h1; exact ⟨hp0, s, rest, hs, this.2.2.2 h1, fun hc => by rw [hc] at hx; exact absurd rfl hx⟩
+
+/-- all three guards are needed (the witnesses panic without them, and are handled with them) -/
+theorem cred_more_guards_needed :
+    CredMore.expirationDate ⟨false, true, true, true⟩ Cred.Cfg.fixed ⟨.ldp, none, true, 1, some "did:x:a", []⟩ ⟨none, none, none, some "t", none⟩
+      = .panic "PresentationExpirationDate:*ldProof.Expires" ∧
+    CredMore.expirationDate CredMore.Cfg.fixed Cred.Cfg.fixed ⟨.ldp, none, true, 1, some "did:x:a", []⟩ ⟨none, none, none, some "t", none⟩ = .ok none ∧
+    CredMore.autoCorrect ⟨true, false, true, true⟩ ⟨0, true, true, true, [none], 1⟩ = .panic "AutoCorrectSelfAttestedCredential:credentialSubject[0][id]=nil-map" ∧
+    CredMore.autoCorrect CredMore.Cfg.fixed ⟨0, true, true, true, [none], 1⟩ = .ok ⟨true, true, true, true⟩ ∧
+    CredMore.autoCorrect ⟨true, true, false, true⟩ ⟨0, false, false, false, [], 0⟩ = .panic "AutoCorrectSelfAttestedCredential:credentialSubject[0]" ∧
+    CredMore.autoCorrect CredMore.Cfg.fixed ⟨0, false, false, false, [], 0⟩ = .ok CredMore.ACOut.untouched := by decide
+
+example : CredMore.issuanceDate Cred.Cfg.fixed ⟨.jwt, none, false, 0, none, []⟩ ⟨none, some "iat", none, none, none⟩ = .ok (some "iat") := by decide
+example : CredMore.expirationDate CredMore.Cfg.fixed Cred.Cfg.fixed ⟨.ldp, none, true, 1, none, []⟩ ⟨none, none, none, none, some (some "e")⟩ = .ok (some "e") := by decide
+example : CredMore.autoCorrect CredMore.Cfg.fixed ⟨0, false, true, false, [some false], 1⟩ = .ok ⟨false, true, false, true⟩ := by decide
+example : CredMore.autoCorrect CredMore.Cfg.fixed ⟨1, true, true, true, [some false], 1⟩ = .ok CredMore.ACOut.untouched := by decide
+
+/-! FilterOnDIDMethod -/
+
+/-- FilterOnDIDMethod, for ANY list of credentials and ANY list of methods: (1) the result is a subsequence of the input (positions
+    strictly increasing, all in range) — nothing is invented or duplicated; (2) SOUND and COMPLETE: a credential is kept exactly when its
+    subject could be unmarshalled, its issuer — if it is a DID — has an allowed method, and so has every non-empty subject id that is a
+    DID; (3) no methods = the input unchanged. -/
+theorem cred_filter_correct (ms : List String) (creds : List CredMore.FCred) :
+    (CredMore.filterOnDIDMethod Sites.credMoreCfg ms creds).Pairwise (· < ·) ∧
+    (∀ k, k ∈ CredMore.filterOnDIDMethod Sites.credMoreCfg ms creds ↔
+      ∃ cr, creds[k]? = some cr ∧ (ms = [] ∨
+        (cr.subjOk = true ∧ (∀ m, cr.issuer = some m → m ∈ ms) ∧ ∀ b ∈ cr.subjects, ∀ m, b.idEmpty = false → b.method = some m → m ∈ ms))) := by
+  rw [fact_credmore.1]
+  unfold CredMore.filterOnDIDMethod
+  simp only [CredMore.Cfg.fixed, Bool.true_and]
+  cases ms with
+  | nil =>
+    simp only [List.isEmpty_nil, if_true]
+    refine ⟨List.pairwise_lt_range, ?_⟩
+    intro k
+    rw [List.mem_range]
+    constructor
+    · intro h; exact ⟨creds[k], by simp [h], by simp⟩
+    · intro ⟨cr, h, _⟩
+      exact (List.getElem?_eq_some_iff.1 h).1
+  | cons m0 mr =>
+    simp only [List.isEmpty_cons, Bool.false_eq_true, if_false]
+    refine ⟨(filterFrom_sorted _ creds 0).1, ?_⟩
+    intro k
+    rw [filterFrom_mem]
+    have hkeep : ∀ cr : CredMore.FCred, CredMore.keep (m0 :: mr) cr = true ↔
+        (cr.subjOk = true ∧ (∀ m, cr.issuer = some m → m ∈ (m0 :: mr)) ∧ ∀ b ∈ cr.subjects, ∀ m, b.idEmpty = false → b.method = some m → m ∈ (m0 :: mr)) := by
+      intro cr
+      unfold CredMore.keep
+      cases hi : cr.issuer with
+      | none =>
+        simp only
+        cases hs : cr.subjOk with
+        | false => simp
+        | true =>
+          simp only [Bool.not_true, Bool.false_eq_true, if_false]
+          rw [subjectsPass_iff]
+          constructor
+          · intro h; exact ⟨by simp, by simp, h⟩
+          · intro h; exact h.2.2
+      | some mi =>
+        simp only
+        by_cases hc : (m0 :: mr).contains mi = true
+        · rw [hc]; simp only [Bool.not_true, Bool.false_eq_true, if_false]
+          cases hs : cr.subjOk with
+          | false => simp
+          | true =>
+            simp only [Bool.not_true, Bool.false_eq_true, if_false]
+            rw [subjectsPass_iff]
+            constructor
+            · intro h; exact ⟨by simp, fun m hm => by cases hm; simpa using hc, h⟩
+            · intro h; exact h.2.2
+        · have hc' : (m0 :: mr).contains mi = false := by simpa using hc
+          rw [hc']; simp only [Bool.not_false, if_true]
+          constructor
+          · intro h; cases h
+          · intro h
+            have := h.2.1 mi rfl
+            exact absurd (by simpa using this) hc
+    constructor
+    · intro ⟨j, cr, hj, he, hk⟩
+      have : k = j := by omega
+      subst this
+      exact ⟨cr, hj, .inr ((hkeep cr).1 hk)⟩
+    · intro ⟨cr, hj, h⟩
+      cases h with
+      | inl h => cases h
+      | inr h => exact ⟨k, cr, hj, by omega, (hkeep cr).2 h⟩
+
+example : CredMore.filterOnDIDMethod CredMore.Cfg.fixed ["web"]
+    [⟨some "web", true, [⟨false, some "web"⟩]⟩, ⟨some "nuts", true, []⟩, ⟨none, true, [⟨true, none⟩, ⟨false, some "nuts"⟩]⟩, ⟨none, false, []⟩, ⟨none, true, [⟨false, none⟩]⟩] = [0, 4] := by decide
+example : CredMore.filterOnDIDMethod CredMore.Cfg.fixed [] [⟨some "nuts", false, []⟩, ⟨none, false, []⟩] = [0, 1] := by decide
 
 
 /-! ### crypto/jwx.go JWTKidAlg, ParseJWT, ParseJWS -/
